@@ -5,13 +5,14 @@ width_aware_slice, interval_overlap, normalize_slice.
 Symbolic: 1..3 runs of native CrossHair strings; every character symbolic over the width
 alphabet (narrow / double-width / combining - its class is decided by the solver through the
 width oracle); column bounds a <= b and the offset n symbolic.
-Oracle: column expansion - every character occupies w(c) columns, a zero-width character
-attaches to the character before it.
+Oracle: column expansion - every character occupies w(c) columns; a zero-width character
+strictly inside the requested columns is kept in place (on the boundary its fate is not fixed).
 """
 from chx import hsupport as H
 from chx.hsupport import P, verdict
-from chx.common import disp, cells, fmt_cells
+from chx.common import disp, cells, fmt_cells, render_matches
 from chx.domains import widths
+from crosshair.tracers import NoTracing
 
 PROP = "C10"
 FUNCTIONS = ["Chunk.width", "FmtStr.width", "FmtStr.width_at_offset", "FmtStr.width_aware_slice", "width_aware_slice",
@@ -47,6 +48,10 @@ def instances(tier, seed):
                     out.append({"name": "%s-K%d-%s%s" % (fn, K, "".join(map(str, lt)), "" if part is None else "-p%s%s" % (part[0], "" if part[1] is None else part[1])),
                                 "fn": fn, "timeout": T, "cost": sum(lt) ** 2 if fn == "wslice" else 1,
                                 "params": {"K": K, "lens": list(lt), "part": part}})
+    # history twins: the sliced value was rendered and measured before (memoised strings / widths filled in)
+    warm = [dict(i, name=i["name"] + "-warm", params=dict(i["params"], warm=True)) for i in out
+            if i["fn"] == "wslice" and (tier != "quick" or sum(i["params"]["lens"]) <= 3)]
+    out += warm
     out.append({"name": "overlap", "fn": "overlap", "timeout": T, "params": {}})
     return out
 
@@ -101,7 +106,11 @@ def _kpre(ks):
 def _build(ts):
     from curtsies.formatstring import FmtStr, Chunk
     K = P["K"]
-    return FmtStr(*[Chunk(t, a) for t, a in zip(ts[:K], ATTS)])
+    f = FmtStr(*[Chunk(t, a) for t, a in zip(ts[:K], ATTS)])
+    if P.get("warm"):
+        H.warm(f)
+        f.width
+    return f
 
 
 def _charlist(ts, wfn):
@@ -118,8 +127,11 @@ def expected_slice(chars, a, b):
     out = []
     col = 0
     total = 0
+    bb = min(b, sum(w for (_, _, w) in chars))       # the range is clamped to the width of the string
     for (c, r, w) in chars:
         if w == 0:
+            if a < col < bb:
+                out.append((c, r))      # a zero-width character strictly inside the range is kept (on the boundary: not fixed)
             continue
         lo, hi = col, col + w
         col = hi
@@ -163,12 +175,14 @@ def wslice(k0: int, k1: int, k2: int, k3: int, k4: int, k5: int, a: int, b: int)
     r = f.width_aware_slice(slice(a, b))
     want, wwidth = expected_slice(chars, a, b)
     got = []
-    prev_ok = True
+    rcol = 0
     for ch in r.chunks:
         ridx = ATTS.index(dict(ch.atts)) if dict(ch.atts) in ATTS else -1
         for c in ch.s:
-            if widths.wcwidth(c) == 0 and c != " ":
-                continue        # zero-width characters: placement checked only loosely (statement does not fix it)
+            wc = widths.wcwidth(c)
+            if wc == 0 and c != " " and not (0 < rcol < min(b, tot) - a):
+                continue        # zero-width characters ON the boundary of the range: not fixed by the statement
+            rcol += wc
             got.append((c, ridx))
     ok = len(got) == len(want)
     if ok:
@@ -177,6 +191,10 @@ def wslice(k0: int, k1: int, k2: int, k3: int, k4: int, k5: int, a: int, b: int)
                 ok = False
                 break
     ok = ok and r.width == wwidth
+    if ok:
+        out = str(r)
+        with NoTracing():
+            ok = render_matches(r)      # what the result prints as is what its runs say (memoised strings included)
     return verdict(ok, tot >= 3 and a >= 1 and b > a)
 
 
@@ -238,10 +256,15 @@ def concrete(fn, params, args):
         return {"ok": False, "observed": "raised %r" % (ex,), "expected": "a FmtStr", "call": call}
     want, wwidth = expected_slice(chars, a, b)
     got = []
+    rcol = 0
     for ch in r.chunks:
         ridx = ATTS.index(dict(ch.atts)) if dict(ch.atts) in ATTS else -1
         for c in ch.s:
-            if cwcwidth.wcwidth(c) == 0:
+            wc = cwcwidth.wcwidth(c)
+            if wc == 0 and not (0 < rcol < min(b, tot) - a):
                 continue
+            rcol += wc
             got.append((c, ridx))
+    if got == want and rw == wwidth and not render_matches(r):
+        return {"ok": False, "observed": "str(result) = %r" % (str(r),), "expected": "a string displaying %r" % (got,), "call": call}
     return {"ok": got == want and rw == wwidth, "observed": "%r width %r" % (got, rw), "expected": "%r width %r" % (want, wwidth), "call": call}
